@@ -95,6 +95,69 @@ def observe(text):
     return ("OK\t%d\t%s\t%d\t%d\t%d" % (count(ast), " ".join(trace), lines, hits["x"], hits["g"]), dump(ast, False), retproblem)
 
 
+def show_history(text):
+    """show() must print the receiver's tree, whatever show() calls came before it: calls that failed
+    half-way (the stream raised at the k-th write), calls with other options, a show() of another tree
+    made from inside the stream's write()"""
+    import io
+    r1 = py_parse_obj(text, "")
+    r2 = py_parse_obj("int other = 1; char tab[3];", "")
+    if r1[0] != "OK" or r2[0] != "OK":
+        return None
+    a, b = r1[1], r2[1]
+
+    def shown(tree, **kw):
+        buf = io.StringIO()
+        tree.show(buf=buf, **kw)
+        return buf.getvalue()
+    ref_a, ref_b = shown(a), shown(b)
+    ref_ac = shown(a, attrnames=True, nodenames=True, showcoord=True)
+    if shown(a) != ref_a or shown(b) != ref_b:
+        return ["show() of an unchanged tree differs between two calls"]
+    bad = []
+
+    class Failing(io.StringIO):
+        def __init__(self, k):
+            io.StringIO.__init__(self)
+            self.k = k
+
+        def write(self, x):
+            if self.k <= 0:
+                raise OSError("stream closed")
+            self.k -= 1
+            return io.StringIO.write(self, x)
+    for k in (0, 1, 2, 5):
+        try:
+            a.show(buf=Failing(k))
+        except OSError:
+            pass
+        got = shown(b)
+        if got != ref_b:
+            bad.append("after a show() that failed at write %d of another tree, show() printed %d lines instead of %d" % (k, got.count("\n"), ref_b.count("\n")))
+            break
+        if shown(a, attrnames=True, nodenames=True, showcoord=True) != ref_ac or shown(a) != ref_a:
+            bad.append("show() output depends on the options of an earlier call / on a failed earlier call (k=%d)" % k)
+            break
+
+    class Reentrant(io.StringIO):
+        inner = None
+        done = False
+
+        def write(self, x):
+            if not self.done:
+                self.done = True
+                self.inner = shown(b)
+            return io.StringIO.write(self, x)
+    re_buf = Reentrant()
+    try:
+        a.show(buf=re_buf)
+        if re_buf.inner != ref_b or re_buf.getvalue() != ref_a:
+            bad.append("a show() of another tree made while a show() is writing changes what either prints")
+    except Exception as e:  # noqa
+        bad.append("re-entrant show() raised %r" % e)
+    return bad
+
+
 def visitor_history(text):
     """visitor classes related by inheritance, used one after the other on the same AST: what a visit_X
     method intercepts must depend only on the class of the visitor, not on which visitors ran before"""
@@ -248,13 +311,17 @@ def classify(replay):
 
 def run(ctx):
     texts = [t for t in progs.pool(ctx, scale=0.3) if len(t) < 6000]
-    ctx.rule("class-level part: 49 classes x every subset of absent node-valued fields, exhaustive, as kernel-checked obligations on regenerated observations and, to name a concrete failing class/field set, evaluated on the live classes against _c_ast.cfg read independently of _ast_gen.py (positional constructor order, attr_names, children() names/objects/order, iteration = children()); tree-level part: visitor classes related by inheritance used in several orders on one AST (interception must not depend on history), copy.copy / copy.deepcopy of a used visitor (the copy intercepts for itself); for the programs of the pool (" + progs.RULE + ") a counting NodeVisitor, a visitor overriding visit_BinaryOp/visit_Decl/visit_Compound, visitors whose visit_X methods return truthy / falsy values of several kinds (the traversal must not depend on them) and show() on the real AST vs the generic model")
+    ctx.rule("class-level part: 49 classes x every subset of absent node-valued fields, exhaustive, as kernel-checked obligations on regenerated observations and, to name a concrete failing class/field set, evaluated on the live classes against _c_ast.cfg read independently of _ast_gen.py (positional constructor order, attr_names, children() names/objects/order, iteration = children()); tree-level part: visitor classes related by inheritance used in several orders on one AST (interception must not depend on history), copy.copy / copy.deepcopy of a used visitor (the copy intercepts for itself); for the programs of the pool (" + progs.RULE + ") a counting NodeVisitor, a visitor overriding visit_BinaryOp/visit_Decl/visit_Compound, visitors whose visit_X methods return truthy / falsy values of several kinds (the traversal must not depend on them) and show() on the real AST vs the generic model; show() after show() calls that failed at the k-th write, with other options, and re-entrantly from the stream's write()")
     ncls = class_level(ctx)
     ctx.count(ncls, nontrivial_n=ncls)
     hist_texts = [t for t in texts if "1" in t and "+" in t][:40]
     for t in hist_texts:
         for why in visitor_history(t) or []:
             ctx.violation(why + " on %r" % t[:80], {"kind": "visitor-history", "text": t})
+    ctx.count(len(hist_texts), nontrivial_n=len(hist_texts))
+    for t in hist_texts:
+        for why in show_history(t) or []:
+            ctx.violation(why + " on %r" % t[:80], {"kind": "show-history", "text": t})
     ctx.count(len(hist_texts), nontrivial_n=len(hist_texts))
     both = pmap(observe, texts)
     obs = [b[0] if b else None for b in both]
@@ -282,6 +349,10 @@ def run(ctx):
 def replay(ctx, payload):
     if payload["input"].get("kind") == "visitor-history":
         pr = visitor_history(payload["input"]["text"])
+        print(pr)
+        return not pr
+    if payload["input"].get("kind") == "show-history":
+        pr = show_history(payload["input"]["text"])
         print(pr)
         return not pr
     if payload["input"].get("kind") == "class":
